@@ -1,6 +1,6 @@
 (** C28 — executor.checkTx against the spec predicates, and the TxHeight window. *)
 From Coq Require Import List ZArith NArith Bool Lia.
-From C33 Require Import C28.Model C28.Spec C28.Defs C28.ProofsLib.
+From C33 Require Import C28.Model C28.Spec C28.Defs C28.ProofsLib C28.ProofsGrp.
 Import ListNotations.
 Open Scope Z_scope.
 
@@ -88,27 +88,141 @@ Proof.
   - rewrite orb_true_iff, !andb_true_iff, orb_true_iff, Z.eqb_eq, !Z.leb_le. tauto.
 Qed.
 
-Lemma spec_of_check : forall c h bt t, 0 < h -> 0 < bt ->
+Lemma spec_of_check : forall c h bt t, 0 < h -> 0 < bt -> tgc t = 0 ->
   check_tx c h bt t = true -> spec_tx c h bt t = true.
 Proof.
-  intros c h bt t Hh Hb H. unfold check_tx in H.
-  apply andb_true_iff in H. destruct H as [H1 H2]. apply negb_true_iff in H1.
-  rewrite (proj2 (Z.gtb_lt h 0) Hh), (proj2 (Z.gtb_lt bt 0) Hb) in H1. cbn [andb] in H1.
-  unfold spec_tx. apply andb_true_iff. split.
-  - apply live_of_not_expire. exact H1.
-  - apply fee_of_check. exact H2.
+  intros c h bt t Hh Hb Hg H. pose proof (check_tx_live c h bt t Hh Hb H) as Hl.
+  unfold check_tx in H.
+  apply andb_true_iff in H. destruct H as [H H4]. apply andb_true_iff in H. destruct H as [H H3].
+  apply andb_true_iff in H. destruct H as [_ H2].
+  unfold spec_tx, spec_single. rewrite Hg, H2, H3. cbn [Z.eqb andb].
+  rewrite (live_of_not_expire c t h bt Hl), (fee_of_check c t H4). reflexivity.
 Qed.
 
-(** a TxHeight transaction accepted at (h, bt) is inside its window *)
-Lemma check_window : forall c h bt t, 0 < h -> 0 < bt ->
-  check_tx c h bt t = true -> tx_height (texp t) > 0 ->
+(** a TxHeight transaction that is not expired at (h, bt) is inside its window *)
+Lemma live_window : forall c h bt t,
+  is_expire c t h bt = false -> tx_height (texp t) > 0 ->
   tx_height (texp t) - c_low c <= h /\ h <= tx_height (texp t) + c_high c.
 Proof.
-  intros c h bt t Hh Hb H Hg. unfold check_tx in H.
-  apply andb_true_iff in H. destruct H as [H1 _]. apply negb_true_iff in H1.
-  rewrite (proj2 (Z.gtb_lt h 0) Hh), (proj2 (Z.gtb_lt bt 0) Hb) in H1. cbn [andb] in H1.
+  intros c h bt t H1 Hg.
   pose proof flag_bound as [Hfb Hb0].
   assert (H0f : 0 < TxHeightFlag) by lia.
   destruct (tx_height_cases (texp t)) as [[Hv Hgv]|[Hv Hgv]]; [|lia].
   destruct (is_expire_false c t h bt H1) as [E|[E|[E|E]]]; lia.
+Qed.
+
+(** * groups *)
+
+Lemma links_spec : forall g, links g = spec_links g.
+Proof.
+  induction g as [|t r IH]; [reflexivity|]. cbn [links spec_links].
+  destruct r as [|u r']; [reflexivity|]. rewrite IH. reflexivity.
+Qed.
+
+Lemma forallb_ext_in : forall (A : Type) (f g : A -> bool) l,
+  (forall x, In x l -> f x = g x) -> forallb f l = forallb g l.
+Proof.
+  intros A f g l H. induction l as [|a l IH]; [reflexivity|]. cbn [forallb].
+  rewrite (H a (or_introl eq_refl)), IH; [reflexivity|].
+  intros x Hx. apply H. right. exact Hx.
+Qed.
+
+Lemma forallb_or_const : forall (A : Type) (b : bool) (f : A -> bool) l,
+  forallb (fun t => b || f t) l = true -> b || forallb f l = true.
+Proof.
+  intros A b f l H. destruct b; [reflexivity|]. cbn [orb] in *. exact H.
+Qed.
+
+Lemma check_group_spec : forall c g, check_group c g = true -> spec_group c g = true.
+Proof.
+  intros c g H. destruct g as [|hd tl]; [discriminate H|]. unfold check_group in H. unfold spec_group.
+  apply andb_true_iff in H; destruct H as [H Xlinks].
+  apply andb_true_iff in H; destruct H as [H Xgc].
+  apply andb_true_iff in H; destruct H as [H Xhdrs].
+  apply andb_true_iff in H; destruct H as [H Xhdr].
+  apply andb_true_iff in H; destruct H as [H Xmax].
+  apply andb_true_iff in H; destruct H as [H Xsum].
+  apply andb_true_iff in H; destruct H as [H Xsize].
+  apply andb_true_iff in H; destruct H as [Xchain Xfee0].
+  assert (G1 : N.eqb (thdr hd) (th hd) = true) by (rewrite N.eqb_sym; exact Xhdr).
+  assert (G2 : forallb (fun t => N.eqb (thdr t) (thdr hd)) tl = true).
+  { rewrite <- Xhdrs. apply forallb_ext_in. intros x _. apply N.eqb_sym. }
+  assert (G4 : spec_links (hd :: tl) = true) by (rewrite <- links_spec; exact Xlinks).
+  assert (G8 : (c_maxfee c <=? 0) || (tfee hd <=? c_maxfee c) = true).
+  { apply negb_true_iff in Xmax. apply andb_false_iff in Xmax. apply orb_true_iff.
+    destruct Xmax as [E|E].
+    - right. apply Z.leb_le. rewrite Z.gtb_ltb in E. apply Z.ltb_ge in E. exact E.
+    - left. apply Z.leb_le. rewrite Z.gtb_ltb in E. apply Z.ltb_ge in E. exact E. }
+  assert (G9 : negb (c_strict c) || forallb (fun t => tchain t =? c_chain c) (hd :: tl) = true).
+  { apply (forallb_or_const tx (negb (c_strict c)) (fun t => tchain t =? c_chain c) (hd :: tl)). exact Xchain. }
+  unfold sum_fee, real_fee in Xsum.
+  rewrite G1, G2, Xgc, G4, Xfee0, Xsize, Xsum, G8, G9. reflexivity.
+Qed.
+
+Lemma group_rc_spec : forall c h bt g, group_rc c h bt g = true -> spec_group c g = true.
+Proof.
+  intros c h bt g H. unfold group_rc in H. apply andb_true_iff in H. destruct H as [_ H].
+  apply check_group_spec. exact H.
+Qed.
+
+Lemma firstn_app_len : forall (A : Type) (a b : list A), firstn (length a) (a ++ b) = a.
+Proof.
+  intros A a b. rewrite firstn_app, Nat.sub_diag, firstn_all. cbn [firstn]. apply app_nil_r.
+Qed.
+
+Lemma skipn_app_len : forall (A : Type) (a b : list A), skipn (length a) (a ++ b) = b.
+Proof.
+  intros A a b. rewrite skipn_app, Nat.sub_diag, skipn_all. reflexivity.
+Qed.
+
+(** an accepted list splits into single transactions and whole groups as the oracle demands *)
+Lemma okl_spec_fees : forall c h bt txs, 0 < h -> 0 < bt -> okl c h bt txs ->
+  forall n, (length txs <= n)%nat -> spec_fees n c txs = true.
+Proof.
+  intros c h bt txs Hh Hb H.
+  induction H as [|t0 r Hg Hc Hr IH|t0 g r Hgc Hlen Hok Hr IH]; intros n Hn.
+  - destruct n; reflexivity.
+  - destruct n as [|n]; [cbn [length] in Hn; lia|]. cbn [spec_fees].
+    rewrite Hg. cbn [Z.eqb].
+    pose proof (spec_of_check c h bt t0 Hh Hb Hg Hc) as Hs. unfold spec_tx in Hs.
+    apply andb_true_iff in Hs. destruct Hs as [_ Hs]. rewrite Hs. cbn [andb].
+    apply IH. cbn [length] in Hn. lia.
+  - destruct n as [|n]; [rewrite app_length in Hn; cbn [length] in Hn; lia|].
+    change ((t0 :: g) ++ r) with (t0 :: (g ++ r)). cbn [spec_fees].
+    destruct (Z.eqb_spec (tgc t0) 0) as [E|E]; [lia|].
+    change (t0 :: (g ++ r)) with ((t0 :: g) ++ r).
+    rewrite Hlen, firstn_app_len, skipn_app_len.
+    rewrite (group_rc_spec c h bt _ Hok).
+    assert (L1 : (2 <=? tgc t0) = true) by (apply Z.leb_le; lia).
+    assert (L2 : (tgc t0 <=? 20) = true) by (apply Z.leb_le; lia).
+    assert (L3 : (length (t0 :: g) <=? length ((t0 :: g) ++ r))%nat = true).
+    { apply Nat.leb_le. rewrite app_length. lia. }
+    rewrite L1, L2, L3. cbn [andb]. apply IH.
+    rewrite app_length in Hn. cbn [length] in Hn. lia.
+Qed.
+
+Lemma okl_spec_block : forall c h bt txs, 0 < h -> 0 < bt -> okl c h bt txs ->
+  spec_block c h bt txs = true.
+Proof.
+  intros c h bt txs Hh Hb H. unfold spec_block. apply andb_true_iff. split.
+  - apply forallb_forall. intros t Ht. apply live_of_not_expire.
+    exact (okl_live c h bt txs Hh Hb H t Ht).
+  - exact (okl_spec_fees c h bt txs Hh Hb H (length txs) (Nat.le_refl _)).
+Qed.
+
+(** a transaction with a GroupCount stands in its block inside its whole group *)
+Lemma okl_whole : forall c h bt txs, okl c h bt txs ->
+  forall t, In t txs -> tgc t <> 0 ->
+  exists pre g post, txs = pre ++ g ++ post /\ In t g /\ spec_group c g = true.
+Proof.
+  intros c h bt txs H.
+  induction H as [|t0 r Hg Hc Hr IH|t0 g r Hgc Hlen Hok Hr IH]; intros t Ht Hne.
+  - destruct Ht.
+  - destruct Ht as [Ht|Ht]; [subst t; contradiction|].
+    destruct (IH t Ht Hne) as [pre [g [post [E [Hin Hs]]]]].
+    exists (t0 :: pre), g, post. rewrite E. split; [reflexivity | split; assumption].
+  - apply in_app_or in Ht. destruct Ht as [Ht|Ht].
+    + exists [], (t0 :: g), r. split; [reflexivity|]. split; [exact Ht | exact (group_rc_spec c h bt _ Hok)].
+    + destruct (IH t Ht Hne) as [pre [g' [post [E [Hin Hs]]]]].
+      exists ((t0 :: g) ++ pre), g', post. rewrite E, <- app_assoc. split; [reflexivity | split; assumption].
 Qed.
